@@ -47,6 +47,10 @@ type Session struct {
 	conn     net.Conn
 	brw      *bufio.ReadWriter
 	vals     map[string]interface{}
+
+	// authority is the authority of the CONNECT request whose tunnel is being
+	// MITM'd on this connection, if any.
+	authority string
 }
 
 var (
@@ -163,6 +167,23 @@ func (s *Session) connection() (net.Conn, *bufio.ReadWriter) {
 	defer s.mu.RUnlock()
 
 	return s.conn, s.brw
+}
+
+// setTunnelAuthority records the authority of the MITM'd CONNECT tunnel.
+func (s *Session) setTunnelAuthority(authority string) {
+	s.mu.Lock()
+	defer s.mu.Unlock()
+
+	s.authority = authority
+}
+
+// tunnelAuthority returns the authority of the MITM'd CONNECT tunnel the
+// session is in, or the empty string.
+func (s *Session) tunnelAuthority() string {
+	s.mu.RLock()
+	defer s.mu.RUnlock()
+
+	return s.authority
 }
 
 // Get takes key and returns the associated value from the session.
